@@ -37,7 +37,8 @@ void rmco_h() {   // remove one pending call_out by its handle
 // the user's pending input_to holds g[i]: as carry-over argument (callback by name) or as bound argument of a function pointer
 void icb(mixed a, mixed b) { if (a == "err" || b == "err") zero = 1 / zero; }
 void inp(string form, int i) { if (form == "fp") input_to((: icb, get(i) :)); else input_to("icb", 0, get(i)); }
-void dest() { destruct(this_object()); }
+void unmany();
+void dest() { unmany(); destruct(this_object()); }
 
 mixed thrower(mixed a, mixed b, mixed c) { return ({ a, b, c }); }
 int boom(mixed x) { return 1 / zero; }
@@ -65,5 +66,19 @@ void many(int i, int n) {
     for (j = 0; j < m; j++) hold[k][j] = v;
   }
 }
-void unmany() { hold = 0; }
+// the same holder arrays filled with n clones of one blueprint (program reference count)
+void clones(int n) {
+  int k, j, m;
+  hold = allocate((n + 9999) / 10000);
+  for (k = 0; k < sizeof(hold); k++) {
+    m = n - k * 10000; if (m > 10000) m = 10000;
+    hold[k] = allocate(m);
+    for (j = 0; j < m; j++) hold[k][j] = new("/obj/pd");
+  }
+}
+void unmany() {
+  int k, j;
+  if (hold) for (k = 0; k < sizeof(hold); k++) for (j = 0; j < sizeof(hold[k]); j++) if (objectp(hold[k][j])) destruct(hold[k][j]);
+  hold = 0;
+}
 int probe(int i) { mixed v = get(i); if (arrayp(v)) return sizeof(v); if (mapp(v)) return sizeof(v); return -1; }
